@@ -4,6 +4,7 @@ import PMV.Model.Pipeline
 import PMV.Proofs.Rename
 import PMV.Proofs.Freeze
 import PMV.Proofs.Taint
+import PMV.Proofs.TaintSyntax
 /-
   C09 — Dynamic name access freezes every name in the module.
   Proved: (G) the generated top-level shape of `minify()` equals the modelled one, in which literal
@@ -86,5 +87,58 @@ example :
     let t2 : Resolve.Tree := [⟨.module, 0, ["Holder", "eval"], [], []⟩, ⟨.class_, 0, ["method"], [], []⟩, ⟨.function, 1, ["self"], [], []⟩]
     Taint.taintedByNames t 5 [("eval", 2)] = true ∧ Taint.taintedByNames t 5 [("eval", 1), ("print", 2)] = false
     ∧ Taint.taintedByNames t2 5 [("eval", 2)] = false := by decide
+
+/-! ### T09.5: the syntactic taint sources -/
+open PMV PMV.TaintSyntax in
+/-- T09.5a: the import part of taint detection holds exactly when some statement of the module — at any depth, in a function,
+    a class or any block — is an import with an alias `*` or with the root module `timeit`. -/
+theorem tainted_by_imports_iff (m : Module) :
+    taintedByImports m = true ↔ ∃ st ∈ allStmts m, stmtTaints st = true := by
+  unfold taintedByImports allStmts
+  rw [taintL_spec, List.any_eq_true]
+
+open PMV PMV.TaintSyntax in
+/-- T09.5b: a star import taints the module wherever it stands. -/
+theorem star_import_anywhere_taints (m : Module) (mo : Option String) (names : List Alias) (lv : Nat) (a : Alias)
+    (hst : Stmt.importFrom mo names lv ∈ allStmts m) (ha : a ∈ names) (hstar : a.name = "*") :
+    taintedByImports m = true := by
+  rw [tainted_by_imports_iff]
+  refine ⟨_, hst, ?_⟩
+  simp only [stmtTaints, List.any_eq_true]
+  exact ⟨a, ha, by simp [aliasTaints, hstar]⟩
+
+open PMV PMV.TaintSyntax in
+/-- T09.5c: `is_only_declared` stated outright: no reference is anything but a `global` declaration or a read, and there is a
+    declaration. -/
+theorem only_declared_iff (refs : List TaintSyntax.RefKind) :
+    isOnlyDeclared refs = true ↔ (∀ r ∈ refs, r ≠ .other) ∧ .globalDecl ∈ refs :=
+  isOnlyDeclared_spec refs
+
+open PMV PMV.TaintSyntax in
+/-- T09.5d: a trigger name that is declared `global` somewhere, never bound and otherwise only read, taints the module. -/
+theorem declared_trigger_taints (bindings : List (String × List TaintSyntax.RefKind)) (n : String) (refs : List TaintSyntax.RefKind)
+    (hb : (n, refs) ∈ bindings) (hn : n ∈ triggers) (hr : ∀ r ∈ refs, r ≠ .other) (hg : .globalDecl ∈ refs) :
+    taintedByDeclarations bindings = true := by
+  unfold taintedByDeclarations
+  rw [List.any_eq_true]
+  refine ⟨(n, refs), hb, ?_⟩
+  simp only [Bool.and_eq_true]
+  exact ⟨by simpa using hn, (isOnlyDeclared_spec refs).mpr ⟨hr, hg⟩⟩
+
+open PMV PMV.TaintSyntax in
+/-- T09.5e: a binding that is assigned, imported or defined anywhere (some reference of another kind) never taints by declaration. -/
+theorem bound_trigger_not_declared_only (refs : List TaintSyntax.RefKind) (h : TaintSyntax.RefKind.other ∈ refs) : isOnlyDeclared refs = false := by
+  cases hd : isOnlyDeclared refs
+  · rfl
+  · exact absurd rfl ((isOnlyDeclared_spec refs).mp hd |>.1 _ h)
+
+-- non-vacuity: a star import inside `try` inside a class inside a function
+open PMV PMV.TaintSyntax in
+example : taintedByImports ⟨[.pass, .functionDef false "f" (.mk [] [] none [] [] none []) [
+    .classDef "C" [] [] [.try_ false [.importFrom (some "os") [⟨"*", none⟩] 0] [] [] []] [] []] [] none []]⟩ = true := by decide
+open PMV.TaintSyntax in
+example : taintedByDeclarations [("other", [.globalDecl]), ("eval", [.nameLoad, .globalDecl, .nameLoad])] = true := by decide
+open PMV.TaintSyntax in
+example : taintedByDeclarations [("eval", [.nameLoad, .globalDecl, .other]), ("vars", [.nameLoad])] = false := by decide
 
 end PMV.C09
